@@ -18,5 +18,5 @@ PROPS="$*"
 [ -z "$PROPS" ] && PROPS="$(python3 -c "import json;print(json.load(open('$DIR/meta.json'))['property'])")"
 rc=0
 for P in $PROPS; do
-  (cd /verif && VERIF_REPO="$WT" ./check "$P" --tier "$TIER" --jobs "${VERIF_JOBS:-8}" 2>&1 | grep -v conda | grep -E "^(VIOLATION|KNOWN|HARNESS|C[0-9]+ tier)" | head -8)
+  (cd /verif && VERIF_REPO="$WT" ./check "$P" --tier "$TIER" --jobs "${VERIF_JOBS:-8}" 2>&1 | grep -v conda | grep -E "^(VIOLATION|KNOWN|HARNESS|C[0-9]+ tier|  sub=)" | head -${SEEDED_LINES:-16})
 done
